@@ -1,5 +1,5 @@
 # replay of a bounded stand-in violation (C16): re-run native/c16_states.py
 import sys
-print('n=2 pure=False: fock_prob([0, 0]) = 0.21912 on fock, 0.40772 on gaussian')
+print('fock n=2 pure=False cat: parity_expectation([1]) = 0.07976 but sum_n (-1)^n p(n) from reduced_dm = 0.37230')
 print('REPLAY-VIOLATION')
 sys.exit(1)
